@@ -117,6 +117,11 @@ def malloc (E : Nat) (l : Layout) (s : St) : St × Outcome Nat :=
   | (s', none) => (s', .ok 0)
   | (s', some addr) => if !mallocOK E s.a.chunks l.size l.align addr then (s', .envBad) else (s', .ok addr)
 
+/-- `Bump { current_chunk_footer: Cell::new(c), allocation_limit: Cell::new(l) }`: an arena whose chain starts at `c`
+(the static empty chunk = no chunk at all) -/
+def mkArena (E M : Nat) (c : Chunk) (l : Option Nat) : Arena :=
+  ⟨M, if c.footer == (emptyChunk E).footer then [] else [c], l⟩
+
 /-- `NonNull::new` -/
 def nonNullNew (a : Nat) : Option Nat := if a = 0 then none else some a
 
